@@ -180,13 +180,9 @@ def isNumberLiteral : Option Node → Bool
 
 /-- after the dot only a single token (or an identifier with its postfix operator) is read without parentheses -/
 def isSingleToken : Option Node → Bool
-  | some (.ident _) | some (.strLit _) | some (.boolean _) | some (.post ..) => true
-  | _ => false
-
-/-- `startsWithDot`: the index `..` (or `..++`) starts with a dot itself: `a...` would lex as `..` `.` -/
-def startsWithDot : Option Node → Bool
-  | some (.ident t) => t.type = .DOTDOT
-  | some (.post _ p) => p.type = .DOTDOT
+  | some (.ident t) => t.type != .DOTDOT   -- a.(..): `a...` would be read as `a`, `..`, `.`
+  | some (.post _ p) => p.type != .DOTDOT
+  | some (.strLit _) | some (.boolean _) => true
   | _ => false
 
 def litByte (t : Tk) : UInt8 := t.lit.headD 0
@@ -373,7 +369,7 @@ def printNode (tbl : Nat → Bool) (n : Node) (ps : PrintState) : PR :=
         let ps := if lp then ps.print [41] else ps
         let ps := ps.print t.lit
         let ps := { ps with exprPrec := prioLOWEST }
-        let ip := t.type = .DOT && (isNumberLiteral idx || (!isSingleToken idx || startsWithDot idx))
+        let ip := t.type = .DOT && (isNumberLiteral idx || !isSingleToken idx)
         match printO tbl idx (if ip then ps.print [40] else ps) with
         | .error e => .error e
         | .ok ps =>
